@@ -15,7 +15,9 @@ import (
 	"github.com/google/trillian/crypto/keyspb"
 )
 
-var c15Names = []string{"", "a", "b"}
+// (one name extends the other by a digit and the tree IDs are 1 and 11, so that a key built by
+// gluing name and ID together would confuse (a, 11) with (a1, 1))
+var c15Names = []string{"", "a", "a1"}
 
 type c15MirrorStore struct {
 	calls int
@@ -61,7 +63,7 @@ func Harness_C15_multi() {
 		cfg.LogConfigs = &configpb.LogConfigSet{}
 		for i := 0; i < nl; i++ {
 			p, be := c15Names[vChoice("prefix", 3)], c15Names[vChoice("log-backend", 3)]
-			id := int64(1 + vChoice("tree-id", 2))
+			id := []int64{1, 11}[vChoice("tree-id", 2)]
 			cfg.LogConfigs.Config = append(cfg.LogConfigs.Config, &configpb.LogConfig{LogId: id, Prefix: p, LogBackendName: be, PrivateKey: &anypb.Any{}, PublicKey: &keyspb.PublicKey{}})
 			if p == "" {
 				ok = false
@@ -106,7 +108,7 @@ func Harness_C15_single() {
 	ok := true
 	for i := 0; i < nl; i++ {
 		p, be := c15Names[vChoice("prefix", 3)], c15Names[vChoice("log-backend", 3)]
-		id := int64(1 + vChoice("tree-id", 2))
+		id := []int64{1, 11}[vChoice("tree-id", 2)]
 		if p == "" {
 			ok = false
 		}
